@@ -77,11 +77,16 @@ def run(ctx):
                       "printed program is analysed, not run), is a display of the same kind with the same elements in order, each printed through pprint with the caller's imports list", floor=1)
     ctx.rule("R20.b", "float printer model: a printer is registered for float (pprint dispatches on the exact type before falling back to repr) and, interpreted on a finite float, inf, -inf "
                       "and nan, emits text that parses to a constant expression denoting the same float (repr of a non-finite float is a bare name)", floor=1)
+    ctx.rule("R20.c", "object printer model: Parameters._pprint interpreted for an object of a class with constructor (self, a, b=<default>, **params) and parameters a, b, c, d, name (b changed "
+                      "or not x generated / explicit name x precedence of c): the text parses to one call of the class; positional parameters first and in order; every changed parameter "
+                      "appears exactly once with its own printed value; an auto-generated name and unchanged parameters are left out", floor=1)
     ctx.not_decided += ["that repr() of the leaf values (strings needing escapes, negative numbers) evaluates back to an equal value (Python's repr, not this code base)",
-                        "the constructor-signature-driven printer of a Parameterized object (Parameters.pprint / _pprint): argument order, default suppression, nested objects",
+                        "constructor signatures other than (self, <positional>, <keyword>=default, **params): *args, keyword-only parameters, non-parameter arguments (printed as unknown_value)",
+                        "values(onlychanged=True), which decides what counts as changed (C13 decides that values() agrees with attribute access)",
                         "containers without a registered printer (dict, set): printed with repr, i.e. nested Parameterized objects inside them are not script_repr'd"]
     container_model(ctx, "R20.a")
     float_model(ctx, "R20.b")
+    object_printer_model(ctx, "R20.c")
 
 
 def float_model(ctx, rule):
@@ -151,3 +156,99 @@ def float_model(ctx, rule):
         ctx.fail(rule, f, f.node, "float printer model: %s (%d disagreeing case(s))" % (problems[0], len(problems)), key=f.qualname + "::float-printer-model")
     else:
         ctx.ok(rule, f, f.node, "float printer model: finite floats print as their repr, inf / -inf / nan as an expression that evaluates to them")
+
+
+def object_printer_model(ctx, rule):
+    """Parameters._pprint interpreted abstractly for an object of class Cls with constructor
+    __init__(self, a, b=<default of b>, **params) and the parameters a, b, c, d and name: a given positionally, b changed or
+    still at the signature's default, c changed, d unchanged, name auto-generated or explicit.
+
+    Specification (what must hold for eval(text) to rebuild an equal object): the text parses to one call of Cls; the
+    positional arguments are the printed values of the constructor's positional parameters, in order; every changed
+    parameter appears exactly once, as positional argument or keyword, with ITS printed value; nothing else appears
+    (an auto-generated name in particular is left out, an explicit one is kept)."""
+    f = ctx.repo.func(P + "Parameters._pprint")
+    problems, n = [], 0
+    import itertools
+    for b_changed, name_kind, c_prec in itertools.product([False, True], ["auto", "explicit"], [None, 0.5]):
+        mkv = lambda nm: Obj(nm, __eqclass__=nm)          # plain values: equal iff the same value
+        default_b = mkv("signature_default_of_b")
+        vals = {"a": mkv("value_a"), "b": mkv("value_b") if b_changed else default_b, "c": mkv("value_c"), "d": mkv("default_d"),
+                "name": "Cls00012" if name_kind == "auto" else "my_name"}
+        changed = {"a": vals["a"], "c": vals["c"]}
+        if b_changed:
+            changed["b"] = vals["b"]
+        if name_kind == "explicit":
+            changed["name"] = vals["name"]
+        # values(onlychanged=True) reports the name too when it is not the class default; the printer filters generated ones
+        if name_kind == "auto":
+            changed["name"] = vals["name"]
+        pobjs = {k: Obj("P_" + k, precedence=(c_prec if k == "c" else None)) for k in vals}
+        spec = Obj("argspec", args=["self", "a", "b"], defaults=(default_b,), varargs=None, varkw="params", keywords="params")
+        cls = Obj("Cls", __name__="Cls", __init__=Obj("Cls.__init__"))
+        me = Obj("instance", __module__="pkg.mod", __class__=cls, name=vals["name"])
+        me.attrs["param"] = Obj("namespace")
+        text_of = {id(v): "V_%s" % k for k, v in vals.items() if isinstance(v, Obj)}
+
+        def hook(fn, args, kwargs):
+            if fn == "getfullargspec":
+                return spec
+            if fn == "type" and args and args[0] is me:
+                return cls
+            if fn.endswith(".param.values"):
+                return dict(changed) if kwargs.get("onlychanged") or (args and args[0]) else dict(vals)
+            if fn.endswith(".param.objects"):
+                return dict(pobjs)
+            if fn == "pprint" and args:
+                v = args[0]
+                return text_of[id(v)] if isinstance(v, Obj) else repr(v)
+            if fn == "re.match" and len(args) == 2:
+                return Obj("match") if args[1] == "Cls00012" else None
+            if fn == "hasattr" and len(args) == 2:
+                return isinstance(args[0], Obj) and args[1] in args[0].attrs
+            if fn == "float" and args == ["inf"]:
+                return 10 ** 9
+            return NotImplemented
+        it = Interp(ctx.hier, call_hook=hook, globals={"script_repr_suppress_defaults": True})
+        try:
+            outs = it.run_all(f, {"self": me, "imports": [], "prefix": " ", "unknown_value": "<?>", "qualify": False, "separator": ""})
+        except Unsupported as e:
+            raise AnalysisError("%s: absint cannot interpret Parameters._pprint: %s" % (rule, e))
+        if len(outs) != 1 or outs[0].imprecise or outs[0].kind != "return" or not isinstance(outs[0].value, str):
+            raise AnalysisError("%s: Parameters._pprint is not interpretable precisely (%s)" % (rule, outs[0].notes[:2] if outs else "no outcome"))
+        n += 1
+        text = outs[0].value
+        desc = "Cls(a, b=<default>, **params) with a given, b %s, c changed, d unchanged, %s name" % ("changed" if b_changed else "at its default", "an auto-generated" if name_kind == "auto" else "an explicit")
+        try:
+            tree = ast.parse(text, mode="eval").body
+        except SyntaxError:
+            problems.append("%s is printed as %r, which is not a Python expression" % (desc, text))
+            continue
+        if not (isinstance(tree, ast.Call) and isinstance(tree.func, ast.Name) and tree.func.id == "Cls"):
+            problems.append("%s is printed as %r, which is not a call of the class" % (desc, text))
+            continue
+        pos = [norm(a) for a in tree.args]
+        kws = [(k.arg, norm(k.value)) for k in tree.keywords]
+        if pos and pos[0] != "V_a":
+            problems.append("%s: the first positional argument is %s, not the printed value of a" % (desc, pos[0]))
+        got = {}
+        for i, a in enumerate(pos):
+            got.setdefault(["a", "b"][i] if i < 2 else "?", []).append(a)
+        for k, v in kws:
+            got.setdefault(k, []).append(v)
+        want = {"a": "V_a", "c": "V_c"}
+        if b_changed:
+            want["b"] = "V_b"
+        if name_kind == "explicit":
+            want["name"] = repr("my_name")
+        for k, v in want.items():
+            if got.get(k) != [v]:
+                problems.append("%s is printed as %r: `%s` appears as %s, specification once with its printed value %s -- the rebuilt object does not hold that value" % (desc, text, k, got.get(k), v))
+        for k in got:
+            if k not in want and not (k == "b" and got[k] == ["V_b"]) and not (k == "d"):
+                problems.append("%s is printed as %r: `%s` should not appear (%s)" % (desc, text, k, "an auto-generated name must not be carried over" if k == "name" else "it is not a parameter that changed"))
+    ctx.abstract_cases += n
+    if problems:
+        ctx.fail(rule, f, f.node, "object printer model: %s (%d disagreeing case(s))" % (problems[0], len(problems)), key=f.qualname + "::object-printer-model")
+    else:
+        ctx.ok(rule, f, f.node, "object printer model, %d cases: positional parameters first and in order, every changed parameter once with its own printed value, generated names left out" % n)
